@@ -884,6 +884,96 @@ fn mode_flat(_seed: u64, limit: usize) -> Vec<serde_json::Value> {
     fails
 }
 
+// ------------------------------------------------------------------ mode: txsim (C19): phase-two evaluation of the transactions recorded in the repository's own tests
+fn unhex(s: &str) -> Vec<u8> {
+    (0..s.len() / 2).filter_map(|i| u8::from_str_radix(&s[2 * i..2 * i + 2], 16).ok()).collect()
+}
+struct RecordedTx { name: String, tx: Vec<u8>, inputs: Vec<u8>, outputs: Vec<u8>, zero_time: u64, zero_slot: u64, slot_length: u32, costs: Vec<i64>, lang: u8, budget: ExBudget }
+fn recorded_txs() -> Vec<RecordedTx> {
+    let src = std::fs::read_to_string("/repo/crates/uplc/src/tx/tests.rs").unwrap_or_default();
+    let mut out = vec![];
+    let starts: Vec<usize> = src.match_indices("\nfn test_eval_").map(|(i, _)| i).collect();
+    for (k, st) in starts.iter().enumerate() {
+        let end = starts.get(k + 1).copied().unwrap_or(src.len());
+        let body = &src[*st..end];
+        let grab_hex = |key: &str| -> Option<Vec<u8>> { let i = body.find(key)?; let r = &body[i..]; let a = r.find("hex::decode(\"")? + 13; let b = r[a..].find('"')? + a; Some(unhex(&r[a..b])) };
+        let num = |key: &str| -> Option<u64> { let i = body.find(key)?; let r = &body[i + key.len()..]; let t: String = r.chars().skip_while(|c| !c.is_ascii_digit()).take_while(|c| c.is_ascii_digit()).collect(); t.parse().ok() };
+        let costs: Vec<i64> = (|| { let i = body.find("let costs: Vec<i64> = vec![")?; let r = &body[i + 27..]; let b = r.find(']')?; Some(r[..b].split(',').filter_map(|x| x.trim().parse::<i64>().ok()).collect()) })().unwrap_or_default();
+        let lang = if body.contains("plutus_v1: Some(costs)") { 1 } else if body.contains("plutus_v2: Some(costs)") { 2 } else if body.contains("plutus_v3: Some(costs)") { 3 } else { 0 };
+        let budget = (|| { let i = body.find("let initial_budget = ExBudget {")?; let r = &body[i..]; let cpu = { let j = r.find("cpu:")?; r[j + 4..].chars().skip_while(|c| !c.is_ascii_digit()).take_while(|c| c.is_ascii_digit()).collect::<String>().parse::<i64>().ok()? }; let mem = { let j = r.find("mem:")?; r[j + 4..].chars().skip_while(|c| !c.is_ascii_digit()).take_while(|c| c.is_ascii_digit()).collect::<String>().parse::<i64>().ok()? }; Some(ExBudget { cpu, mem }) })();
+        if let (Some(tx), Some(inputs), Some(outputs), Some(zt), Some(zs), Some(sl), Some(budget)) = (grab_hex("let tx_bytes"), grab_hex("let raw_inputs"), grab_hex("let raw_outputs"), num("zero_time:"), num("zero_slot:"), num("slot_length:"), budget) {
+            if lang != 0 && !costs.is_empty() {
+                let name: String = body.trim_start().chars().skip(3).take_while(|c| *c != '(').collect();
+                out.push(RecordedTx { name, tx, inputs, outputs, zero_time: zt, zero_slot: zs, slot_length: sl as u32, costs, lang, budget });
+            }
+        }
+    }
+    out
+}
+fn mode_txsim(_seed: u64, limit: usize) -> Vec<serde_json::Value> {
+    use pallas_primitives::{conway::{CostModels, TransactionInput, TransactionOutput}, Fragment};
+    use pallas_traverse::{Era, MultiEraTx};
+    use uplc::tx::{eval_phase_two, script_context::{ResolvedInput, SlotConfig}};
+    let mut fails = vec![];
+    let txs = recorded_txs();
+    let mut n = 0;
+    for rt in &txs {
+        if fails.len() >= limit { break; }
+        let input = serde_json::json!({"transaction": format!("crates/uplc/src/tx/tests.rs::{}", rt.name)});
+        let r = std::panic::catch_unwind(std::panic::AssertUnwindSafe(|| -> Result<(), String> {
+            let inputs = Vec::<TransactionInput>::decode_fragment(&rt.inputs).map_err(|e| format!("inputs: {e}"))?;
+            let outputs = Vec::<TransactionOutput>::decode_fragment(&rt.outputs).map_err(|e| format!("outputs: {e}"))?;
+            let utxos: Vec<ResolvedInput> = inputs.iter().zip(outputs.iter()).map(|(i, o)| ResolvedInput { input: i.clone(), output: o.clone() }).collect();
+            let slot_config = SlotConfig { zero_time: rt.zero_time, zero_slot: rt.zero_slot, slot_length: rt.slot_length };
+            let cm = CostModels { plutus_v1: if rt.lang == 1 { Some(rt.costs.clone()) } else { None }, plutus_v2: if rt.lang == 2 { Some(rt.costs.clone()) } else { None }, plutus_v3: if rt.lang == 3 { Some(rt.costs.clone()) } else { None } };
+            let met = MultiEraTx::decode_for_era(Era::Conway, &rt.tx).or_else(|_| MultiEraTx::decode_for_era(Era::Babbage, &rt.tx)).or_else(|_| MultiEraTx::decode_for_era(Era::Alonzo, &rt.tx)).map_err(|e| format!("tx: {e}"))?;
+            let MultiEraTx::Conway(tx) = met else { return Err("SKIP not a Conway transaction".into()) };
+            let run = |utxos: &[ResolvedInput], b: &ExBudget| eval_phase_two(&tx, utxos, Some(&cm), Some(b), &slot_config, false, |_| ());
+            let base = run(&utxos, &rt.budget).map_err(|e| format!("SKIP the recorded transaction does not evaluate on this tree: {e}"))?;
+            let units = |v: &Vec<(pallas_primitives::conway::Redeemer, uplc::machine::eval_result::EvalResult)>| -> Vec<(u64, u64)> { v.iter().map(|(r, _)| (r.ex_units.mem, r.ex_units.steps)).collect() };
+            // (1) the reported units are the evaluator's cost of that script run
+            for (k, (r, er)) in base.iter().enumerate() {
+                let c = er.cost();
+                if (r.ex_units.mem as i64, r.ex_units.steps as i64) != (c.mem, c.cpu) { return Err(format!("redeemer #{k}: reported units {:?} differ from the evaluator's cost {:?}", r.ex_units, c)); }
+            }
+            // (2) the order in which resolved inputs are supplied does not matter
+            let mut rev = utxos.clone(); rev.reverse();
+            let mut rot = utxos.clone(); if !rot.is_empty() { rot.rotate_left(1); }
+            for (what, perm) in [("reversed", &rev), ("rotated", &rot)] {
+                match run(perm, &rt.budget) {
+                    Ok(v) => if units(&v) != units(&base) { return Err(format!("with the resolved inputs {what} the units are {:?} instead of {:?}", units(&v), units(&base))); },
+                    Err(e) => return Err(format!("with the resolved inputs {what} the simulation fails: {e}")),
+                }
+            }
+            // (3) each redeemer runs against what the previous ones left: the exact total suffices, one unit less does not
+            let total = base.iter().fold(ExBudget { mem: 0, cpu: 0 }, |a, (r, _)| ExBudget { mem: a.mem + r.ex_units.mem as i64, cpu: a.cpu + r.ex_units.steps as i64 });
+            match run(&utxos, &total) {
+                Ok(v) => if units(&v) != units(&base) { return Err("with the exact total as budget the units change".into()); },
+                Err(e) => return Err(format!("a budget equal to the total of the reported units does not suffice: {e}")),
+            }
+            if !base.is_empty() {
+                if run(&utxos, &ExBudget { cpu: total.cpu - 1, mem: total.mem }).is_ok() { return Err("one cpu unit less than the total of the reported units still succeeds".into()); }
+                if run(&utxos, &ExBudget { cpu: total.cpu, mem: total.mem - 1 }).is_ok() { return Err("one memory unit less than the total of the reported units still succeeds".into()); }
+            }
+            if base.len() >= 2 {
+                let first = ExBudget { mem: base[0].0.ex_units.mem as i64, cpu: base[0].0.ex_units.steps as i64 };
+                if run(&utxos, &first).is_ok() { return Err("a budget that only covers the first redeemer lets all of them succeed: later redeemers are not charged against what is left".into()); }
+            }
+            // (4) reproducible
+            if let Ok(v) = run(&utxos, &rt.budget) { if units(&v) != units(&base) { return Err("a second simulation reports different units".into()); } }
+            Ok(())
+        }));
+        match r {
+            Err(_) => fails.push(fail("txsim", "transaction simulation panicked", input, "units or an error".into(), "panic".into())),
+            Ok(Err(e)) if e.starts_with("SKIP") => {}
+            Ok(Err(e)) => { n += 1; fails.push(fail("txsim", "phase-two simulation is inconsistent", input, "units = evaluator cost; input order irrelevant; budget handed over between redeemers".into(), e)) }
+            Ok(Ok(())) => { n += 1; }
+        }
+    }
+    println!("BOUNDS mode=txsim {n} of {} recorded transactions (crates/uplc/src/tx/tests.rs, read at run time): units = evaluator cost per redeemer; resolved inputs reversed / rotated; budget = exact total, total - 1 (cpu, mem), first redeemer only; repeated run", txs.len());
+    fails
+}
+
 // ------------------------------------------------------------------ mode: exmem (C05): the size measure of constants, against the specification's memoryUsage
 fn spec_int_words(n: &BigInt) -> i64 {
     if n.sign() == num_bigint::Sign::NoSign { 1 } else { ((n.magnitude().bits() - 1) / 64) as i64 + 1 }
@@ -1880,6 +1970,7 @@ fn main() {
             "shrinker" => mode_shrinker(seed, limit),
             "proptest" => mode_proptest(seed, limit),
             "exmem" => mode_exmem(seed, limit),
+            "txsim" => mode_txsim(seed, limit),
             "allbuiltins" => mode_allbuiltins(seed, limit),
             // the builtin grid, keeping only crashes (for the never-crash property a wrong value is not a violation)
             "builtins_np" => mode_builtins(seed, 1000).into_iter().filter(|f| f["what"].as_str().unwrap_or("").contains("panicked")).take(limit).collect(),
